@@ -280,3 +280,14 @@ RULES = [
     ("C19.R8", "T8", "link activity is credited to the sender of the fragment (address plumbing, shared with C15.R8)", r_activity),
     ("C19.R9", "T8/T2-loop", "NotBefore is the earlier of next poll and next keep-alive; the user queue is drained until a request starts", r9),
 ]
+
+
+def r10(ctx):
+    """'polls and keep-alives are not starved': a failed or rejected automatic task is re-armed through ITS OWN failure hook with a
+    back-off (never left Pending with no delay, which re-issues it back-to-back and gates everything behind it) - the hook table and
+    the back-off arithmetic are rule C17.R5 (shared code)."""
+    import c17
+    c17.r5(ctx)
+
+
+RULES.append(("C19.R10", "T4-namesake/T8", "a rejected automatic task backs off through its own failure hook (shared with C17.R5)", r10))
